@@ -466,7 +466,14 @@ namespace
             }
             else if (r == "0,1")
             {
-                if (g.chance(0.25))
+                // (approximate solutions are what an interrupted solve() hands out: the switch that enables them - off by
+                // default in the BIT* family - is on in half of the cases)
+                if (n.find("approximate") != std::string::npos)
+                {
+                    if (g.chance(0.6))
+                        p[n] = g.chance(0.8) ? "1" : "0";
+                }
+                else if (g.chance(0.25))
                     p[n] = g.chance(0.5) ? "1" : "0";
             }
             else if (n == "samples_per_batch" || n == "batch_size")
